@@ -297,7 +297,7 @@ func c14(c *Ctx) {
 					}
 					tb := i.Block().Succs[succ]
 					if ret, isRet := tb.Instrs[len(tb.Instrs)-1].(*ssa.Return); isRet && len(ret.Results) > 0 {
-						if an.NonNilError(ret.Results[len(ret.Results)-1], tb) && len(bad) < 4 {
+						if an.NonNilError(an.RetVal(ret, len(ret.Results)-1), tb) && len(bad) < 4 {
 							bad = append(bad, sprintf("bit %d is refused at %s", b, c.pos(i.Cond.Pos())))
 						}
 					}
@@ -516,24 +516,42 @@ func findDecl(pk *packages.Package, name string) *ast.FuncDecl {
 }
 
 func stringLiteralsOf(pk *packages.Package, fn string) []string {
+	// the function and the package-level functions of the same package it calls (a helper split off the function
+	// keeps its literals in the set)
 	var out []string
-	fd := findDecl(pk, fn)
-	if fd == nil || fd.Body == nil {
-		return nil
+	seen := map[string]bool{}
+	var visit func(name string, d int)
+	visit = func(name string, d int) {
+		if seen[name] || d > 4 {
+			return
+		}
+		seen[name] = true
+		fd := findDecl(pk, name)
+		if fd == nil || fd.Body == nil {
+			return
+		}
+		ast.Inspect(fd.Body, func(n ast.Node) bool {
+			if bl, ok := n.(*ast.BasicLit); ok && bl.Kind == token.STRING {
+				if tv, ok := pk.TypesInfo.Types[bl]; ok && tv.Value != nil {
+					out = append(out, constant.StringVal(tv.Value))
+				}
+			}
+			if id, ok := n.(*ast.Ident); ok {
+				if k, ok := pk.TypesInfo.Uses[id].(*types.Const); ok && k.Val().Kind() == constant.String {
+					out = append(out, constant.StringVal(k.Val()))
+				}
+			}
+			if call, ok := n.(*ast.CallExpr); ok {
+				if id, ok := call.Fun.(*ast.Ident); ok {
+					if f, ok := pk.TypesInfo.Uses[id].(*types.Func); ok && f.Pkg() == pk.Types {
+						visit(f.Name(), d+1)
+					}
+				}
+			}
+			return true
+		})
 	}
-	ast.Inspect(fd.Body, func(n ast.Node) bool {
-		if bl, ok := n.(*ast.BasicLit); ok && bl.Kind == token.STRING {
-			if tv, ok := pk.TypesInfo.Types[bl]; ok && tv.Value != nil {
-				out = append(out, constant.StringVal(tv.Value))
-			}
-		}
-		if id, ok := n.(*ast.Ident); ok {
-			if k, ok := pk.TypesInfo.Uses[id].(*types.Const); ok && k.Val().Kind() == constant.String {
-				out = append(out, constant.StringVal(k.Val()))
-			}
-		}
-		return true
-	})
+	visit(fn, 0)
 	return out
 }
 
@@ -569,6 +587,7 @@ func c14Order(c *Ctx) {
 		r.Undecide("R14.O", "functions", "", "generator package functions not found")
 		return
 	}
+	c14SortComparators(c, fns)
 	taintVal := map[ssa.Value]bool{}
 	taintField := map[string]bool{}
 	taintRet := map[*ssa.Function]map[int]bool{}
@@ -1140,4 +1159,95 @@ func typesKey(v ssa.Value, d int, seen map[ssa.Value]bool) int {
 		}
 	}
 	return 2
+}
+
+// c14SortComparators (R14.O): a sort makes the output independent of map order only if its comparator looks at
+// the elements being sorted.  For every sort.Slice / sort.SliceStable in the generator, each slice the less
+// function indexes with its i / j arguments must be the very slice handed to the sort (same variable, or the same
+// field path from the same root): a comparator that indexes another slice - the original of a copy being sorted -
+// compares positions that the sort is not moving, and the result follows the incoming (map) order.
+func c14SortComparators(c *Ctx, fns []*ssa.Function) {
+	r := c.R
+	n := 0
+	for _, f := range fns {
+		k := 0
+		for _, cs := range an.Calls(f) {
+			if cs.Name != "sort.Slice" && cs.Name != "sort.SliceStable" || len(cs.Common.Args) != 2 {
+				continue
+			}
+			n++
+			k++
+			key := sprintf("sort-comparator:%s#%d", an.ShortName(f), k)
+			sorted := cs.Common.Args[0]
+			if mi, ok := sorted.(*ssa.MakeInterface); ok {
+				sorted = mi.X
+			}
+			mc, ok := cs.Common.Args[1].(*ssa.MakeClosure)
+			if !ok {
+				r.Undecide("R14.O", key, c.pos(cs.Pos()), "the less function is not a function literal")
+				continue
+			}
+			less := mc.Fn.(*ssa.Function)
+			bind := map[*ssa.FreeVar]ssa.Value{}
+			for i, fv := range less.FreeVars {
+				if i < len(mc.Bindings) {
+					bind[fv] = mc.Bindings[i]
+				}
+			}
+			var path func(v ssa.Value, d int) string
+			path = func(v ssa.Value, d int) string {
+				if d > 8 {
+					return "…"
+				}
+				switch x := v.(type) {
+				case *ssa.Parameter:
+					return "param:" + x.Name()
+				case *ssa.FreeVar:
+					if b, ok := bind[x]; ok {
+						return path(b, d+1)
+					}
+					return "freevar:" + x.Name()
+				case *ssa.Alloc:
+					return sprintf("var:%s@%d", x.Comment, x.Pos())
+				case *ssa.UnOp:
+					if x.Op == token.MUL {
+						return "*" + path(x.X, d+1)
+					}
+				case *ssa.FieldAddr:
+					return path(x.X, d+1) + "." + an.FieldName(x.X.Type(), x.Field)
+				case *ssa.Slice:
+					if x.Low == nil && x.High == nil {
+						return path(x.X, d+1)
+					}
+				}
+				return sprintf("%s@%d", v.Name(), v.Pos())
+			}
+			want := path(sorted, 0)
+			var bad []string
+			reads := 0
+			for _, b := range less.Blocks {
+				for _, in := range b.Instrs {
+					ia, ok := in.(*ssa.IndexAddr)
+					if !ok {
+						continue
+					}
+					if p, isP := ia.Index.(*ssa.Parameter); !isP || p.Parent() != less {
+						continue
+					}
+					reads++
+					if got := path(ia.X, 0); got != want {
+						bad = append(bad, sprintf("indexes %s at %s", got, c.pos(ia.Pos())))
+					}
+				}
+			}
+			if reads == 0 {
+				r.Undecide("R14.O", key, c.pos(cs.Pos()), "the less function indexes nothing with its arguments")
+				continue
+			}
+			r.Check(len(bad) == 0, "R14.O", key, c.pos(cs.Pos()), sprintf("the sort is over %s; its less function %s: it compares elements the sort is not moving, so the order of the result follows the incoming order", want, strings.Join(bad, "; ")))
+		}
+	}
+	if n == 0 {
+		r.Undecide("R14.O", "sort-comparator", "", "no sort.Slice call found in the generator")
+	}
 }
